@@ -89,6 +89,7 @@ type ModelVal struct {
 }
 
 type PathResult struct {
+	ForkSites map[string]int
 	Decisions []int
 	End       endKind
 	Msg       string
@@ -250,6 +251,7 @@ func (m *Machine) branch(c *sym.Term) bool {
 	case tOK && fOK:
 		alt := append(append([]int{}, m.trace...), 0)
 		m.res.NewWork = append(m.res.NewWork, alt)
+		m.forkSite()
 		m.pos++
 		m.trace = append(m.trace, 1)
 		m.assertPC(c)
@@ -287,6 +289,7 @@ func (m *Machine) choice(n int, what string) int {
 		alt := append(append([]int{}, m.trace...), k)
 		m.res.NewWork = append(m.res.NewWork, alt)
 	}
+	m.forkSite()
 	m.pos++
 	m.trace = append(m.trace, 0)
 	return 0
@@ -1097,4 +1100,14 @@ func shortStack() string {
 		}
 	}
 	return strings.Join(out, " < ")
+}
+
+func (m *Machine) forkSite() {
+	if !m.eng.Verbose {
+		return
+	}
+	if m.res.ForkSites == nil {
+		m.res.ForkSites = map[string]int{}
+	}
+	m.res.ForkSites[m.where()]++
 }
